@@ -223,7 +223,7 @@ func TestC19(t *testing.T) {
 
 	// (iii) packets decoded from arbitrary bytes, and half-filled values left
 	// behind by a failing UnmarshalBinary
-	r.Rapid(t, "decoded", vf.N(9000, 6000000), func(t *rapid.T) {
+	r.Rapid(t, "decoded", vf.N(24000, 6000000), func(t *rapid.T) {
 		frame, kind := genHostileFrame(t)
 		if rapid.IntRange(0, 3).Draw(t, "valid") == 0 {
 			_, frame, _, _ = genValidFrame(t, false)
@@ -250,7 +250,7 @@ func TestC19(t *testing.T) {
 	})
 
 	// (ii) packets under construction: every prefix of setter sequences
-	r.Rapid(t, "under-construction", vf.N(1500, 800000), func(t *rapid.T) {
+	r.Rapid(t, "under-construction", vf.N(4500, 800000), func(t *rapid.T) {
 		typ := uint8(rapid.IntRange(1, 15).Draw(t, "type"))
 		ss := api.Setters(typ)
 		if len(ss) == 0 {
